@@ -486,12 +486,12 @@ func ComponentPatternFromStr(s string) (ComponentPattern, error) {
 
 func (c Component) EncodingLength() int {
 	l := len(c.Val)
-	return c.Typ.EncodingLength() + Nat(l).EncodingLength() + l
+	return c.Typ.EncodingLength() + TLNum(l).EncodingLength() + l
 }
 
 func (c Component) EncodeInto(buf Buffer) int {
 	p1 := c.Typ.EncodeInto(buf)
-	p2 := Nat(len(c.Val)).EncodeInto(buf[p1:])
+	p2 := TLNum(len(c.Val)).EncodeInto(buf[p1:])
 	copy(buf[p1+p2:], c.Val)
 	return p1 + p2 + len(c.Val)
 }
